@@ -118,6 +118,10 @@ def constructors():
                 "thin_prism", "view_port"]))
     cs.append((5, "OpticalChannelData", lambda a: OpticalChannelData(1, "lens", "type", "name", a[0]), [([6], vp())],
                ["camera_viewport"]))
+    # the BTS-format camera record takes its viewport by the same rule (its other arguments are not fixed-shape geometry)
+    from basictdf.tdfCalibrationData import BTSCameraData
+    cs.append((5, "BTSCameraData", lambda a: BTSCameraData(good((3, 3), "<f8"), good((3,), "<f8"), good((2,), "<f8"), good((2,), "<f8"),
+                                                          good((4,), "<f8"), good((4,), "<f8"), a[0]), [([6], vp())], ["view_port"]))
     return cs
 
 
@@ -132,7 +136,7 @@ REQUIRED = {
     ("SeelabCameraData", 2): lambda m: m == [5, [2]], ("SeelabCameraData", 3): lambda m: m == [5, [2]],
     ("SeelabCameraData", 4): lambda m: m == [5, [2]], ("SeelabCameraData", 5): lambda m: m == [5, [2]],
     ("SeelabCameraData", 6): lambda m: m == [5, [2]], ("SeelabCameraData", 7): lambda m: m in ([6], [5, [2, 2]]),
-    ("OpticalChannelData", 0): lambda m: m in ([6], [5, [2, 2]]),
+    ("OpticalChannelData", 0): lambda m: m in ([6], [5, [2, 2]]), ("BTSCameraData", 0): lambda m: m in ([6], [5, [2, 2]]),
 }
 
 
@@ -142,7 +146,7 @@ def run(chk):
     chk.rule = ("complete enumeration of the property's universe: every array shape of rank 0-3 with extents 0..4 (156 shapes) x "
                 "dtypes {f4,f8,i4,i8,u1,bool,object}, object arrays whose elements are 2-/3-sequences or viewports, lists and tuples of length 0..4, None, str, int, float, dict, object, other sequences and containers of length 0..4 (bytes, bytearray, range, deque, array.array, memoryview, set, frozenset, dict, dict keys), "
                 "CameraViewPort — substituted for each validated argument of Data3D, ForceTorque3D, CalibrationDataBlock, "
-                "CameraViewPort, SeelabCameraData, OpticalChannelData (others valid), and two or three geometry arguments wrong at once (all triples over 12 values; all pairs of Seelab positions over 6 values); ForceTorqueTrack: all triples over a "
+                "CameraViewPort, SeelabCameraData, OpticalChannelData, the viewport of BTSCameraData (others valid; an accepted viewport argument must be held as the numbers given), and two or three geometry arguments wrong at once (all triples over 12 values; all pairs of Seelab positions over 6 values); ForceTorqueTrack: all triples over a "
                 "12-shape subset + non-arrays; Event: every value x both kinds; observed: accepted / exception class, and "
                 "nBytes vs encoded length of every accepted object; a sample of the single-argument cases taken again after successful and after failed (cut, damaged) decodes of every block type; non-trivial = the substituted value is not the valid one")
     chk.exhaustive = True
@@ -153,7 +157,7 @@ def run(chk):
                 margs = [v[0] for v in valid]
                 pargs = [v[1] for v in valid]
                 margs[pos], pargs[pos] = m, p
-                cases.append((cid, name, pos, margs, (lambda build=build, pargs=pargs: build(pargs)), m, "%s.%s = %s" % (name, argnames[pos], desc)))
+                cases.append((cid, name, pos, margs, bound(build, pargs), m, "%s.%s = %s" % (name, argnames[pos], desc)))
     # several arguments wrong AT ONCE (a check that looks at the arguments together must not let two wrong shapes cancel
     # out): every triple over a 12-value subset for the three geometry arguments of Data3D / ForceTorque3D /
     # CalibrationDataBlock, every pair of positions over a 6-value subset for the Seelab record
@@ -244,6 +248,34 @@ def disturb(damaged, k):
     return what
 
 
+def bound(build, pargs):
+    def thunk():
+        return build(pargs)
+    thunk.pargs = pargs
+    return thunk
+
+
+def viewport_kept(name, pos, given, o):
+    """an accepted viewport argument is taken as the numbers it holds: origin = its first pair, size = its second"""
+    from basictdf.tdfTypes import CameraViewPort
+    try:
+        if name == "CameraViewPort":
+            got = (o.origin, o.size)[pos]
+            want = given
+        else:
+            vp_ = o.view_port if name in ("SeelabCameraData", "BTSCameraData") else o.camera_viewport
+            got = [vp_.origin, vp_.size]
+            want = [given.origin, given.size] if isinstance(given, CameraViewPort) else [given[0], given[1]]
+        try:
+            want = [int(x) for x in np.asarray(want).reshape(-1)]
+        except Exception:
+            return None              # not numbers at all (an object array of something else): writing it fails loudly
+        got = [int(x) for x in np.asarray(got).reshape(-1)]
+        return None if got == want else "holds %r, given %r" % (got, want)
+    except Exception as e:
+        return "cannot be read back: " + common.exc_info(e)
+
+
 def judge_all(chk, pairs, prefix=""):
     for c, m in pairs:
         cid, name, pos, margs, thunk, mval, desc = c[:7]
@@ -294,6 +326,11 @@ def judge_all(chk, pairs, prefix=""):
             sz = sized_ok(o)
             if isinstance(sz, tuple) and sz[0] != sz[1]:
                 found = "%s was accepted and is mis-sized: nBytes %d, %d bytes written" % (desc, sz[0], sz[1])
+        if not found and rc is None and not multi and hasattr(thunk, "pargs") and (
+                name == "CameraViewPort" or (name == "SeelabCameraData" and pos == 7) or name in ("OpticalChannelData", "BTSCameraData")):
+            bad = viewport_kept(name, pos, thunk.pargs[pos], o)
+            if bad:
+                found = "%s was accepted but the object %s" % (desc, bad)
         if found:
             chk.violation("C19: " + found, what, True)
             if chk.n_found() >= 5:
